@@ -54,10 +54,13 @@ Known(s, v) == (IF Prim(v) = Me THEN {} ELSE {PropHash(v, c) : c \in Contents}) 
 
 Reqs == {[t |-> "PrepareRequest", h |-> H, v |-> v, from |-> Prim(v), ts |-> PropHash(v, c).ts, nonce |-> PropHash(v, c).nonce, txs |-> PropHash(v, c).txs]
            : v \in {w \in Views : Prim(w) # Me}, c \in Contents}
+\* family "junk1": junk only under one identity (keeps the exhaustive run small)
+JunkFrom == IF "junk1" \in Family THEN {(Me + 1) % N} ELSE Others
+HasJunk == "junk" \in Family \/ "junk1" \in Family
 Resps(s) == UNION {{[t |-> "PrepareResponse", h |-> H, v |-> v, from |-> i, ph |-> ph] : i \in Others, ph \in Known(s, v)} : v \in Views}
-            \cup (IF "junk" \in Family THEN {[t |-> "PrepareResponse", h |-> H, v |-> v, from |-> i, ph |-> JunkHash(v)] : v \in Views, i \in Others} ELSE {})
+            \cup (IF HasJunk THEN {[t |-> "PrepareResponse", h |-> H, v |-> v, from |-> i, ph |-> JunkHash(v)] : v \in Views, i \in JunkFrom} ELSE {})
 Sigs(s, t) == UNION {{[t |-> t, h |-> H, v |-> v, from |-> i, s |-> i, b |-> BlockOf(ph)] : i \in Others, ph \in Known(s, v)} : v \in Views}
-              \cup (IF "junk" \in Family THEN {[t |-> t, h |-> H, v |-> v, from |-> i, s |-> -1, b |-> JunkBlock] : v \in Views, i \in Others} ELSE {})
+              \cup (IF HasJunk THEN {[t |-> t, h |-> H, v |-> v, from |-> i, s |-> -1, b |-> JunkBlock] : v \in Views, i \in JunkFrom} ELSE {})
 Cvs == {[t |-> "ChangeView", h |-> H, v |-> v, from |-> i, ts |-> Now, nv |-> v + 1, reason |-> 0] : v \in Views, i \in Others}
 RReqs == IF "recovery" \in Family THEN {[t |-> "RecoveryRequest", h |-> H, v |-> v, from |-> i, ts |-> Now] : v \in Views, i \in Others} ELSE {}
 \* recovery messages: the proposal of the view, responses of everybody else, and optionally everybody's commits / change views
@@ -76,7 +79,7 @@ Garbage == IF "junk" \in Family
                  [t |-> "Commit", h |-> H - 1, v |-> 0, from |-> 0, s |-> -1, b |-> JunkBlock],
                  [t |-> "PrepareRequest", h |-> H, v |-> 0, from |-> (Prim(0) + 1) % N, ts |-> 4001, nonce |-> "109", txs |-> <<>>]}
            ELSE {}
-Menu(s) == Reqs \cup Resps(s) \cup Sigs(s, "Commit") \cup (IF AmevOn \/ "junk" \in Family THEN Sigs(s, "PreCommit") ELSE {})
+Menu(s) == Reqs \cup Resps(s) \cup Sigs(s, "Commit") \cup (IF AmevOn \/ HasJunk THEN Sigs(s, "PreCommit") ELSE {})
            \cup Cvs \cup RReqs \cup RMsgs(s) \cup Garbage
 
 \* what the application answers
@@ -113,7 +116,7 @@ NextHist(o, ev) ==
 Init == \E o \in Node!Api(Node!Blank(Cfg), "Start", [ts |-> Ledger.tipTs], Env0) :
           /\ x = Strip(o)
           /\ hist = [Hist0 EXCEPT !.sent = {p \in UNION {OwnIn(m) : m \in Bcasts(o.out)} : p.t \in Kinds},
-                                  !.evs = IF Emit THEN <<[call |-> "Start", arg |-> [ts |-> Ledger.tipTs], env |-> Env0]>> ELSE <<>>]
+                                  !.evs = IF Emit THEN <<[call |-> "Start", arg |-> [ts |-> Ledger.tipTs], env |-> Env0, cfg |-> Cfg]>> ELSE <<>>]
 
 Step(c, env) == \E o \in Node!Api(x, c.call, c.arg, env) :
                    /\ Strip(o) # x \/ o.out # <<>>          \* skip pure no-ops: they add no behaviour
@@ -145,9 +148,10 @@ ViewEvidence == x.v > 0 => Cardinality({i \in 1..x.n : x.lastcv[i].k = "cv" /\ x
 ResponseEvidence == \A p \in Own("PrepareResponse") : p.v = x.v => (x.prep[x.primary + 1].k = "req" /\ p.ph = ReqPh /\ ReqPh.from = Prim(x.v))
 \* C02: once the block is handed over, M commits of the view verify against it
 ValidCm == {i \in 1..x.n : x.cm[i].k = "cm" /\ x.cm[i].v = x.v /\ x.cm[i].s = x.vals[i] /\ x.cm[i].b = Node!CtxBlock(x)}
-Certificate == x.blockDone => Cardinality(ValidCm) >= M
+Certificate == x.blockDone => Cardinality(ValidCm) >= M      \* view and tables are frozen once the block is handed over
 ValidPc == {i \in 1..x.n : x.pc[i].k = "pc" /\ x.pc[i].v = x.v /\ x.pc[i].s = x.vals[i] /\ x.pc[i].b = Node!CtxBlock(x)}
-PreCertificate == x.preDone => Cardinality(ValidPc) >= M
+\* evaluated at the step in which ProcessPreBlock succeeds (the flag outlives a later view change of a node that has not pre-committed)
+PreCertificate == [][hist'.npre > hist.npre => Cardinality({i \in 1..x'.n : x'.pc[i].k = "pc" /\ x'.pc[i].v = x'.v /\ x'.pc[i].s = x'.vals[i] /\ x'.pc[i].b = Node!CtxBlock(x')}) >= M]_vars
 \* C05
 OneDecision == hist.nblock <= 1 /\ (x.blockDone <=> hist.nblock = 1)
 \* C07
